@@ -9,6 +9,7 @@ mod search;
 mod searchprops;
 mod c20;
 mod c16;
+mod c17;
 #[allow(dead_code)]
 mod jsonproto;
 mod c15;
@@ -80,6 +81,7 @@ fn main() {
         "C16" => c16::run(&mut ctx),
         "C08" => c08::run(&mut ctx),
         "C14" => c14::run(&mut ctx),
+        "C17" => c17::run(&mut ctx),
         _ => {
             eprintln!("unknown property {}", prop);
             std::process::exit(2);
